@@ -519,7 +519,8 @@ class C17(Prop):
                     if level != "none" or action != "ignore":
                         out.append(Violation("no_fingerprint_no_threat", "none ignore", o, idx))
                     continue
-                second = (canary_fails(pr, p) or ex["flag_before"] or streak[a] >= ex["rep"]
+                # "repeated" anomaly: the watcher's threshold, and in any reading at least two in a row
+                second = (canary_fails(pr, p) or ex["flag_before"] or streak[a] >= max(ex["rep"], 2)
                           or (a, p[6], p[7]) in remembered)
                 out += self._clauses(idx, level, action, s2, v, second, ex["anergic_before"], "pipeline")
                 if fresh_trained.get(a) and level != "none":
